@@ -133,9 +133,38 @@ def hist_dec(c):
     ["mod", object index, field index, value] assigns a field of an earlier decoded object; ["turn", index]
     swaps its source and destination.  -> ["hist", [result of every dec step, shown at once]]"""
     names = H + ["data"] + S
-    objs, out = [], []
+    objs, out, bufs = [], [], []
     for st in c[1]:
-        if st[0] == "dec":
+        if st[0] == "decbuf":
+            # ["decbuf", kind, bytes, n_args, "bytes"|"bytearray"|"memoryview"]: decode from a caller's buffer
+            raw = bytes(st[2]) if st[4] == "bytes" else bytearray(st[2])
+            bufs.append(raw)
+            arg = memoryview(raw) if st[4] == "memoryview" else raw
+            try:
+                if st[1] == "scp":
+                    o = SCPPacket.from_bytestring(arg, *([] if st[3] is None else [st[3]]))
+                    out.append(["ok", show_scp(o)])
+                else:
+                    o = SDPPacket.from_bytestring(arg)
+                    out.append(["ok", show_sdp(o)])
+                objs.append(o)
+            except Exception as e:
+                objs.append(None)
+                out.append(err(e))
+        elif st[0] == "overwrite":
+            # the caller reuses its receive buffer (recv_into style): same length, new contents
+            raw = bufs[st[1]]
+            if isinstance(raw, bytearray):
+                raw[:] = bytes(st[2])[:len(raw)].ljust(len(raw), b"\0")
+        elif st[0] == "recheck":
+            # the packet decoded earlier, looked at again: its fields and its own encoding
+            o = objs[st[1]]
+            if o is None:
+                out.append(["error", "no-object"])
+            else:
+                out.append(["ok", (show_scp if isinstance(o, SCPPacket) else show_sdp)(o), enc(o)])
+        elif st[0] == "dec":
+            bufs.append(None)
             try:
                 if st[1] == "scp":
                     o = SCPPacket.from_bytestring(bytes(st[2]), *([] if st[3] is None else [st[3]]))
@@ -165,8 +194,45 @@ def hist_dec(c):
     return ["hist", out]
 
 
+def threads_case(c):
+    """["threads", [[[packet, expected bytes] ...] per thread], seconds]: every thread encodes its own packets
+    in a tight loop; the first encoding that differs from the expected bytes (computed by the harness's
+    independent encoder) is returned.  A search: finding nothing proves nothing."""
+    import sys
+    import threading
+    import time
+    old = sys.getswitchinterval()
+    sys.setswitchinterval(1e-6)
+    stop = time.time() + c[2]
+    found, counts = [], [0] * len(c[1])
+
+    def work(t, items):
+        pkts = [(mk_scp(q), bytes(want), q) for q, want in items]
+        while not found and time.time() < stop:
+            for pkt, want, q in pkts:
+                try:
+                    got = pkt.bytestring
+                except Exception as e:
+                    got = err(e)
+                counts[t] += 1
+                if got != want:
+                    found.append([t, q, list(got) if isinstance(got, bytes) else got])
+                    return
+    ths = [threading.Thread(target=work, args=(t, items)) for t, items in enumerate(c[1])]
+    try:
+        for th in ths:
+            th.start()
+        for th in ths:
+            th.join()
+    finally:
+        sys.setswitchinterval(old)
+    return ["threads", found[:1], sum(counts)]
+
+
 def run_case(c):
     k = c[0]
+    if k == "threads":
+        return threads_case(c)
     if k == "hist_enc":
         return hist_enc(c)
     if k == "hist_dec":
